@@ -181,6 +181,18 @@ def one_side(impl, case, sc, pert):
                 if rng.random() < 0.4:
                     oc = sess.call("close")
                     rec["outs"].append(("close", oc.kind, oc.value if oc.ok else oc.exc_name(), []))
+                if rng.random() < 0.35:
+                    # first a connect() attempt that FAILS (the device asks for authentication, no keys are given), and sometimes an operation on the object in that state
+                    sim.auth = simdev.AuthPlan(require=True)
+                    oc = sess.call("connect")
+                    rec["outs"].append(("connect-failing", oc.kind, oc.value if oc.ok else oc.exc_name(), []))
+                    rec["avail"].append(sess.dev.available)
+                    sim.auth = simdev.AuthPlan()
+                    if rng.random() < 0.6:
+                        sim.scripts[b"shell:after-failed-connect"] = [b"x"]
+                        o2 = sess.call("shell", "after-failed-connect", decode=False)
+                        rec["outs"].append(("shell-after-failed-connect", o2.kind, o2.value if o2.ok else o2.exc_name(), []))
+                        rec["avail"].append(sess.dev.available)
                 sim.maxdata = rng.choice([m for m in gen.MAXDATAS if m != sim.maxdata])
                 oc = sess.call("connect")
                 rec["outs"].append(("connect", oc.kind, oc.value if oc.ok else oc.exc_name(), []))
